@@ -65,6 +65,17 @@ pub fn run(seed: u64, count: usize, max_c: usize, max_p: usize, rooms_mode: usiz
             }
             inst.style.push_str("+fewrooms");
         }
+        // every seventh instance (no random draw): course 0 gets a room factor far above the usual ones (12.0, no offset) and all rooms are one
+        // place larger than ten times its full size -- large enough for the other courses, too small for course 0 when it is full
+        if id % 7 == 3 && !inst.courses.is_empty() && inst.courses[0].max >= 1 {
+            let nc = inst.courses.len();
+            inst.courses[0].fbits = 12.0f32.to_bits();
+            inst.courses[0].obits = 0.0f32.to_bits();
+            let full = inst.courses[0].max + inst.courses[0].instr.len();
+            let others = inst.courses.iter().skip(1).map(|c| 3 * (c.max + c.instr.len()) + 14).max().unwrap_or(0);
+            inst.rooms = Some((0..nc).map(|_| (10 * full + 1).max(others)).collect());
+            inst.style.push_str("+bigfactor");
+        }
         let hidden: Vec<Vec<String>> =
             (0..inst.courses.len())
                 .map(|c| {
